@@ -206,12 +206,17 @@ class MultimapResolver:
             max_overlap_len = max(overlap_len, max_overlap_len)
             overlap_index_list.append((overlap_len, assignment.genomic_region[0], i))
 
-        # select assignment with the best overlap with genic region and lowest region start (for reproducibility)
-        min_region_start = math.inf
+        # select assignment with the best overlap with genic region and lowest region start (for reproducibility),
+        # ties are broken by chromosome and alignment coordinates so that the choice does not depend on the input order
+        best_key = None
         best_assignment = -1
         for info in overlap_index_list:
-            if info[0] == max_overlap_len and info[1] < min_region_start:
-                min_region_start = info[1]
+            if info[0] != max_overlap_len:
+                continue
+            assignment = assignment_list[info[2]]
+            key = (info[1], assignment.chr_id, assignment.start, assignment.end)
+            if best_key is None or key < best_key:
+                best_key = key
                 best_assignment = info[2]
 
         assert best_assignment != -1
